@@ -99,15 +99,15 @@ class PackageTarget(ABC):
         Dictionary of supported platforms and architectures
         """
 
-    @cached_property
+    @property
     def package_output_path(self) -> Path:
         return self.config.out / self.config.configuration / "package" / self.key
 
-    @cached_property
+    @property
     def package_build_path(self) -> Path:
         return self.config.out / self.config.configuration / 'build' / self.key / 'package'
 
-    @cached_property
+    @property
     def build_path(self) -> Path:
         return self.config.out / self.config.configuration / 'build' / self.key / 'platforms'
 
